@@ -1,7 +1,7 @@
 """C11 — reported p-values are well-formed and the overall value matches the history."""
 import math
 
-from . import common as C, nnm
+from . import common as C, nnm, genarith
 
 ANCHORS = nnm.ANCHORS
 
@@ -31,6 +31,7 @@ def run(ctx, res):
     if getattr(ctx, "replay", None):
         nnm.run_replay(ctx, res, oracle)
         return
+    genarith.regenerate(ctx.pid, "nnm_masks", res)      # whole-function skeletons + boundary conventions (capping, overrides)
     n = ctx.n(900, 12000)
     cases, cr = nnm.run_corr(ctx.pid, ctx.rng, n, maxlen=ctx.n(12, 14))
     res.corr.append(("NonnegMean.test/estim/bet vs NNM.run_test", cr, nnm.case_json))
